@@ -961,10 +961,22 @@ type Program struct {
 
 // Idx0 implements Node.
 func (p *Program) Idx0() file.Idx {
+	if len(p.Body) == 0 {
+		if p.File == nil {
+			return 0
+		}
+		return file.Idx(p.File.Base())
+	}
 	return p.Body[0].Idx0()
 }
 
 // Idx1 implements Node.
 func (p *Program) Idx1() file.Idx {
+	if len(p.Body) == 0 {
+		if p.File == nil {
+			return 0
+		}
+		return file.Idx(p.File.Base())
+	}
 	return p.Body[len(p.Body)-1].Idx1()
 }
